@@ -172,6 +172,13 @@ fn contexts() -> Vec<(&'static str, String, u64)> {
         ("nested-svg-child", format!("<svg><rect wh=\"5\" text=\"R{r}\"/></svg>"), 1),
         ("dwh", "<rect wh=\"20\" dwh=\"{{randint(1, 9)}}\"/>".to_string(), 1),
         ("circle-r-text", format!("<circle r=\"{{{{randint(1, 9)}}}}\" text=\"R{r}\" text-loc=\"t\"/>"), 2),
+        ("id", "<rect wh=\"5\" id=\"r{{randint(1,1000000)}}\"/>".to_string(), 1),
+        ("group-id", "<g id=\"g{{randint(1,1000000)}}\"><rect wh=\"1\"/></g>".to_string(), 1),
+        ("group-local-used-twice", format!("<g k=\"{r}\"><rect wh=\"5\" text=\"R$k\"/><rect xy=\"^|h\" wh=\"5\" text=\"R$k\"/></g>"), 1),
+        ("specs-template-expression", format!("<specs><rect id=\"a\" wh=\"5\" text=\"R{r}\"/></specs><reuse href=\"#a\"/>"), 1),
+        ("specs-template-expression-twice", format!("<specs><rect id=\"a\" wh=\"5\" text=\"R{r}\"/></specs><reuse href=\"#a\"/><reuse href=\"#a\" x=\"9\"/>"), 2),
+        ("shape-with-child", format!("<rect wh=\"5\" data-v=\"{r}\"><title>t</title></rect>"), 1),
+        ("shape-with-end-tag", format!("<rect wh=\"5\" text=\"R{r}\"></rect>"), 1),
     ]
 }
 
@@ -302,6 +309,58 @@ pub fn run(tier: Tier) -> i32 {
     });
     rep.sample(json!({"leg": "functions", "expr": fcases[fcases.len() / 3].0}));
     rep.absorb("functions", st);
+
+    // special values (NaN, +-inf, zero) as arguments of every function: whatever the result, never a panic; quotes
+    // which are never closed are malformed
+    let special = ["1", "0", "sqrt(-1)", "pow(10, 39)", "-pow(10, 39)"];
+    let mut spcases: Vec<String> = Vec::new();
+    for (name, ar) in er::FIXED_ARITY {
+        let ar = *ar;
+        if ar == 0 || ar > 3 {
+            continue;
+        }
+        for t in 0..special.len().pow(ar as u32) {
+            let mut idx = t;
+            let mut args = Vec::new();
+            for _ in 0..ar {
+                args.push(special[idx % special.len()]);
+                idx /= special.len();
+            }
+            spcases.push(format!("{name}({})", args.join(", ")));
+        }
+    }
+    for name in er::VARIADIC {
+        for a in special {
+            for b in special {
+                spcases.push(format!("{name}({a}, {b})"));
+                spcases.push(format!("{name}({a}, 2, {b})"));
+            }
+        }
+    }
+    let st = run_space(spcases.len(), |i| {
+        let expr = &spcases[i];
+        let (got, _) = subject(expr);
+        let viol = if got == Err("PANIC".into()) {
+            Some(Violation { clause: "panic".into(), signature: format!("C14/special-values/panic/{}", expr.split('(').next().unwrap_or("")), case: json!({"leg": "special", "expr": expr}), detail: format!("{{{{{expr}}}}} panicked") })
+        } else {
+            None
+        };
+        CaseResult { case_hash: hash64(expr), nontrivial: got.is_ok(), outcome_hash: hash64(&format!("{got:?}")), executions: 1, violation: viol }
+    });
+    rep.absorb("special-values", st);
+    let quoted = ["1 + 2 \"", "7 '", "5''", "2'3'", "'a", "\"a", "'a' + '", "1 + 'x"];
+    let st = run_space(quoted.len(), |i| {
+        let expr = quoted[i];
+        let (got, _) = subject(expr);
+        let unbalanced = expr.matches('\'').count() % 2 == 1 || expr.matches('"').count() % 2 == 1;
+        let viol = match &got {
+            Ok(v) if unbalanced => Some(Violation { clause: "malformed-expression-accepted".into(), signature: "C14/quotes/unbalanced-quote-accepted".into(), case: json!({"leg": "quotes", "expr": expr}), detail: format!("{{{{{expr}}}}} has a quote which is never closed but evaluated to {v:?}") }),
+            Err(e) if e == "PANIC" => Some(Violation { clause: "panic".into(), signature: "C14/quotes/panic".into(), case: json!({"leg": "quotes", "expr": expr}), detail: "panic".into() }),
+            _ => None,
+        };
+        CaseResult { case_hash: hash64(&expr), nontrivial: viol.is_none(), outcome_hash: hash64(&format!("{got:?}")), executions: 1, violation: viol }
+    });
+    rep.absorb("quotes", st);
 
     // malformed / token strings
     let alphabet: &[&str] = &["1", "2.5", "(", ")", "+", "-", "*", "/", "%", ",", "lt", "and", "abs", "max", "nosuch", "$a", "$undef"];
